@@ -4,6 +4,7 @@ import TemprenModel.Model.Count
 import TemprenModel.Model.Hash
 import TemprenModel.Model.AdHoc
 import TemprenModel.Model.Registry
+import TemprenModel.Model.Order
 open Tempren Tempren.Proto
 
 def hexNibble (c : Char) : Option Nat :=
@@ -51,6 +52,49 @@ def encLookup : Lookup → String
   | .unknownCategory => "unknownCategory"
   | .unknownName => "unknownName"
   | .ambiguous cs => "ambiguous " ++ encStrList cs
+
+def decAtom (f : String) : Option KeyAtom :=
+  match f.toList with
+  | 'i' :: rest => (String.ofList rest).toInt?.map KeyAtom.int
+  | 's' :: _ => (decStr f).map KeyAtom.str
+  | _ => none
+
+def decKey (f : String) : Option (List KeyAtom) :=
+  if f = "" then some [] else
+  (f.splitOn "+").foldr (fun a acc => do
+    let r ← acc
+    let x ← decAtom a
+    pure (x :: r)) (some [])
+
+structure SortFile where
+  rel : PurePath
+  size : Nat
+  lower : List Char
+
+/-- PosixPath comparison key: `str(p).split('/')` compared as a list = join with U+0000 -/
+def pathKey (p : PurePath) : List Char := (strPath p).map (fun c => if c = '/' then Char.ofNat 0 else c)
+
+def keyOf (spec : List String) (f : SortFile) : List KeyAtom :=
+  spec.map fun a =>
+    match a with
+    | "name" => KeyAtom.str (nameOf f.rel)
+    | "base" => KeyAtom.str (stemP f.rel)
+    | "ext" => KeyAtom.str (suffixP f.rel)
+    | "dir" => KeyAtom.str (pathKey (parentOf f.rel))
+    | "size" => KeyAtom.int f.size
+    | "negsize" => KeyAtom.int (-(f.size : Int))
+    | "lower" => KeyAtom.str f.lower
+    | "lenname" => KeyAtom.int (nameOf f.rel).length
+    | _ => KeyAtom.int 0
+
+def decSortFile (f : String) : Option SortFile :=
+  match f.splitOn ":" with
+  | [r, s, l] => do
+    let r ← decStr r
+    let s ← s.toNat?
+    let l ← decStr l
+    pure { rel := parsePath r, size := s, lower := l }
+  | _ => none
 
 def encCountVal : Option CountVal → String
   | none => "E"
@@ -130,6 +174,30 @@ def handle (line : String) : String :=
       let sp := errorSpan cat name col r
       encLookup r ++ " @" ++ toString sp.1 ++ "+" ++ toString sp.2
     | _, _, _, _ => "bad-op"
+  | ["sort", inv, keys] =>
+    match decBool inv, decList keys with
+    | some inv, some ks =>
+      match ks.foldr (fun k acc => do let r ← acc; let x ← decKey k; pure (x :: r)) (some []) with
+      | some keys =>
+        let idx := (List.range keys.length).zip keys
+        encList ((pySorted (fun (p : Nat × List KeyAtom) => p.2) inv idx).map (fun p => toString p.1))
+      | none => "bad-op"
+    | _, _ => "bad-op"
+  | ["sortfiles", inv, spec, files] =>
+    match decBool inv, decList spec, decList files with
+    | some inv, some spec, some fs =>
+      match fs.foldr (fun k acc => do let r ← acc; let x ← decSortFile k; pure (x :: r)) (some []) with
+      | some files =>
+        let idx := (List.range files.length).zip files
+        encList ((pySorted (fun (p : Nat × SortFile) => keyOf spec p.2) inv idx).map (fun p => toString p.1))
+      | none => "bad-op"
+    | _, _, _ => "bad-op"
+  | ["depthsort", depths] =>
+    match decList depths with
+    | some ds =>
+      let idx := (List.range ds.length).zip (ds.map (fun d => d.toNat?.getD 0))
+      encList ((depthSorted (fun (p : Nat × Nat) => p.2) idx).map (fun p => toString p.1))
+    | none => "bad-op"
   | _ => "bad-op"
 
 partial def loop (h : IO.FS.Stream) (out : IO.FS.Stream) : IO Unit := do
